@@ -526,6 +526,17 @@ class Scalar(Parametrized):
     def array(self):
         return [self.data]
 
+    def subs(self, *args):
+        if type(self) is not Scalar:
+            return super().subs(*args)
+        return Scalar(rsubs(self.data, *args), is_mixed=self.is_mixed)
+
+    def lambdify(self, *symbols, **kwargs):
+        if type(self) is not Scalar:
+            return super().lambdify(*symbols, **kwargs)
+        scalar = super().lambdify(*symbols, **kwargs)
+        return lambda *xs: Scalar(scalar(*xs).data, is_mixed=self.is_mixed)
+
     def grad(self, var, **params):
         if var not in self.free_symbols:
             return Sum([], self.dom, self.cod)
